@@ -554,3 +554,74 @@ func (s *Space) PrefixLive(d *D, prefix string) bool {
 	}
 	return d.live()[st]
 }
+
+// Skeleton renders the top-level shape of pat with the content of every capture group abstracted away: `<k>` for
+// capture k, literal text as itself, `[x]` for an optional piece, `^` and `$` for the text anchors, `(?)` for any
+// other piece that consumes input outside a capture, and `!op{…}` for a capture nested under an operator that lets it
+// participate more than once or not at all (alternation, repetition). A matched text is the concatenation of its
+// captures and the literals between them exactly when the skeleton is a plain sequence of these.
+func Skeleton(pat string) (string, error) {
+	re, err := parse(pat)
+	if err != nil {
+		return "", err
+	}
+	var hasCap func(r *syntax.Regexp) bool
+	hasCap = func(r *syntax.Regexp) bool {
+		if r.Op == syntax.OpCapture {
+			return true
+		}
+		for _, s := range r.Sub {
+			if hasCap(s) {
+				return true
+			}
+		}
+		return false
+	}
+	var render func(r *syntax.Regexp) string
+	render = func(r *syntax.Regexp) string {
+		switch r.Op {
+		case syntax.OpConcat:
+			var sb strings.Builder
+			for _, s := range r.Sub {
+				sb.WriteString(render(s))
+			}
+			return sb.String()
+		case syntax.OpCapture:
+			if hasCap(r.Sub[0]) {
+				return fmt.Sprintf("<%d:%s>", r.Cap, render(r.Sub[0]))
+			}
+			return fmt.Sprintf("<%d>", r.Cap)
+		case syntax.OpLiteral:
+			s := string(r.Rune)
+			if r.Flags&syntax.FoldCase != 0 {
+				s = "(?i:" + s + ")"
+			}
+			return s
+		case syntax.OpQuest:
+			return "[" + render(r.Sub[0]) + "]"
+		case syntax.OpAlternate:
+			if len(r.Sub) == 2 {
+				for i := range r.Sub {
+					if r.Sub[i].Op == syntax.OpEmptyMatch {
+						return "[" + render(r.Sub[1-i]) + "]"
+					}
+				}
+			}
+		case syntax.OpBeginText:
+			return "^"
+		case syntax.OpEndText:
+			return "$"
+		case syntax.OpEmptyMatch:
+			return ""
+		}
+		if hasCap(r) {
+			var parts []string
+			for _, s := range r.Sub {
+				parts = append(parts, render(s))
+			}
+			return "!" + r.Op.String() + "{" + strings.Join(parts, "|") + "}"
+		}
+		return "(?)"
+	}
+	return render(re), nil
+}
